@@ -1020,6 +1020,9 @@ func (r *resolver) refine(target Definition, y *Refine) error {
 	if y.unboundedPtr != nil {
 		r.builder.UnBounded(target, *y.unboundedPtr)
 	}
+	if y.presence != "" {
+		r.builder.Presence(target, y.presence)
+	}
 	for _, m := range y.Musts() {
 		h, valid := target.(HasMusts)
 		if !valid {
